@@ -448,6 +448,8 @@ def damage(doc: str, dmg, faults, fail_map):
     return doc[:rng.randrange(max(1, len(doc)))]
   if kind == 'flip':
     b = bytearray(doc.encode('utf-8'))
+    if not b:
+      return doc
     for _ in range(dmg['n']):
       i = rng.randrange(len(b))
       b[i] ^= 1 << rng.randrange(7)
